@@ -465,6 +465,7 @@ theorem inplace_on_owner_refines_numpy (h : Heap) (roots : List Nat) (x : Nat) (
             = .ok vals)
     (hvl : vals.length = size (h.t x).data.d.shape) :
     ∃ h', inPlaceOp h roots x kind (ids.map Operand.t) = .ok h' ∧
+      h' = finalH (dupH h x) x h.next kind ids vals ∧
       h'.val (h'.t x).data = ((h.t x).data.d.shape, vals) ∧
       (h'.t x).const = (h.t x).const ∧ (h'.t x).base = none ∧
       (∀ b, b ≠ h.next + 1 → h'.buf b = h.buf b) ∧
@@ -535,7 +536,7 @@ theorem inplace_on_owner_refines_numpy (h : Heap) (roots : List Nat) (x : Nat) (
     exact hvc
   have hmut := mutate_single_eq (dupH h x) x h.next kind ids vals hcc' hph hw' hdfs
   obtain ⟨f1, f2, f3, f4, f5⟩ := finalH_spec (dupH h x) x h.next kind ids vals hx' hvl'
-  refine ⟨finalH (dupH h x) x h.next kind ids vals, ?_, ?_, ?_, f3, ?_, ?_⟩
+  refine ⟨finalH (dupH h x) x h.next kind ids vals, ?_, rfl, ?_, ?_, f3, ?_, ?_⟩
   · unfold inPlaceOp
     simp only [hpre, hnb, Option.isNone_none, Option.getD_none]
     rw [hdup]
@@ -566,5 +567,131 @@ example :
       | .ok h' => h'.val (h'.t 0).data == ([2], [6, 8]) && (h'.t 0).base.isNone && !(h'.t 0).const
       | .error _ => false) = true := by
   refine ⟨by decide, rfl, rfl, rfl, rfl, rfl⟩
+
+end MG.C04R
+
+/-! ## the graph after the update is the single-assignment form of the statement -/
+
+namespace MG.C04R
+open MG.Eng MG.ND MG.C13
+
+theorem op_foldl_modT {γ} (xs : List γ) (step : Heap → γ → Heap) (hs : ∀ h c g, (step h c).op g = h.op g) (h : Heap) (g : Nat) :
+    (xs.foldl step h).op g = h.op g := by
+  induction xs generalizing h with
+  | nil => rfl
+  | cons c cs ih => simp only [List.foldl_cons]; rw [ih, hs]
+
+/-- the op that `opStepOut` records: the kernel applied to the operand ids; every other op is untouched -/
+theorem outRes_ops (h : Heap) (kind : Kind) (ids : List Nat) (out : Arr) (vals : List Int) :
+    ((outRes h kind ids out vals).1.t (h.next + 1)).creator = some h.next ∧
+    ((outRes h kind ids out vals).1.op h.next).kind = kind ∧
+    ((outRes h kind ids out vals).1.op h.next).vars = ids ∧
+    (∀ g, g ≠ h.next → (outRes h kind ids out vals).1.op g = h.op g) := by
+  let h1 := h.write out vals
+  let step1 : Heap → Nat → Heap := fun h v =>
+    let tv := h.t v
+    let h := if tv.base.isSome ∧ tv.creator.isNone then h.modT v ({ · with base := none }) else h
+    h.modT v ({ · with grad := none, viewGrad := none })
+  have o1 : ∀ h c g, (step1 h c).op g = h.op g := by
+    intro h c g; simp only [step1]; split <;> rfl
+  have n1 : ∀ h c, (step1 h c).next = h.next := by
+    intro h c; simp only [step1]; split <;> rfl
+  let h2 := ids.foldl step1 h1
+  have N2 : h2.next = h.next := (next_foldl ids step1 n1 h1).trans rfl
+  have O2 : ∀ g, h2.op g = h.op g := fun g => (op_foldl_modT ids step1 o1 h1 g).trans rfl
+  let f := h2.next
+  let h3 := (h2.fresh.1).setOp f { kind := kind, vars := ids, whereMask := none }
+  let step2 : Heap → Nat → Heap := fun h v => h.modT v fun t => { t with ops := f :: t.ops }
+  let h4 := ids.foldl step2 h3
+  have O4 : ∀ g, h4.op g = h3.op g := fun g => op_foldl_modT ids step2 (fun _ _ _ => rfl) h3 g
+  have N4 : h4.next = h.next + 1 := by
+    rw [next_foldl ids step2 (fun _ _ => rfl) h3]
+    show h2.next + 1 = _
+    rw [N2]
+  have e : outRes h kind ids out vals =
+      ((h4.fresh.1).setT h4.next { data := out, const := !(ids.any fun v => !(h2.t v).const), creator := some f }, h4.next) := rfl
+  rw [e]
+  have hf : f = h.next := N2
+  refine ⟨?_, ?_, ?_, ?_⟩
+  · simp only [← N4, t_setT_self, hf]
+  · show (h4.op h.next).kind = _
+    rw [O4, ← hf]; simp [h3, op_setOp_self]
+  · show (h4.op h.next).vars = _
+    rw [O4, ← hf]; simp [h3, op_setOp_self]
+  · intro g hg
+    show h4.op g = _
+    rw [O4]
+    have : g ≠ f := by rw [hf]; exact hg
+    simp only [h3]
+    rw [op_setOp_ne _ _ _ _ this]
+    exact O2 g
+
+end MG.C04R
+
+namespace MG.C04R
+open MG.Eng MG.ND MG.C13
+
+theorem dupH_ops (h : Heap) (x : Nat) (hx : x < h.next) (g : Nat) :
+    ((dupH h x).op g).vars =
+      if g ∈ (h.t x).ops then (h.op g).vars.map (swapVar x h.next) else (h.op g).vars := by
+  have hne : h.next ≠ x := by omega
+  obtain ⟨_, _, _, rv⟩ := reroute_spec (phHeap (nullGrad (nullGrad h x) x) x) h.next x hne
+  show ((reroute _ _ _).op g).vars = _
+  rw [rv g]
+  have h1 : ((phHeap (nullGrad (nullGrad h x) x) x).t x).ops = (h.t x).ops := by
+    simp only [phHeap, mirror, fresh_snd]
+    have hn : (nullGrad (nullGrad h x) x).next = h.next := rfl
+    rw [hn, t_modT_ne _ _ _ _ (Ne.symm hne), t_setT_ne _ _ _ _ (Ne.symm hne)]
+    show ((nullGrad (nullGrad h x) x).t x).ops = _
+    simp [nullGrad]
+  have h2 : (phHeap (nullGrad (nullGrad h x) x) x).op g = h.op g := rfl
+  rw [h1, h2]
+
+/-- **inplace_on_owner_is_ssa_renaming.**  The graph an in-place update leaves behind *is* the single-assignment
+form of the statement `x' = kernel(operands[x ↦ x_old])`: the public tensor `x` is now the output of one new op of
+the given kind whose inputs are the operands with `x` replaced by the placeholder `p` (a fresh id); every op that
+consumed `x` before consumes `p` instead and no other op changed; and `p` reads exactly what `x` read before the
+statement.  (So backward through the updated graph is backward through the functional program — `C01.backward_sound`
+applies to it unchanged.) -/
+theorem inplace_on_owner_is_ssa_renaming (h : Heap) (x : Nat) (kind : Kind) (ids : List Nat) (vals : List Int)
+    (hx : x < h.next) (hxbuf : (h.t x).data.buf ≠ h.next + 1)
+    (hvl : vals.length = size (h.t x).data.d.shape) :
+    let p := h.next
+    let F := finalH (dupH h x) x p kind ids vals
+    (F.t x).creator = some (h.next + 2) ∧
+    (F.op (h.next + 2)).kind = kind ∧ (F.op (h.next + 2)).vars = ids.map (swapVar x p) ∧
+    (∀ g, g ≠ h.next + 2 → (F.op g).vars =
+      if g ∈ (h.t x).ops then (h.op g).vars.map (swapVar x p) else (h.op g).vars) ∧
+    F.val (F.t p).data = h.val (h.t x).data := by
+  intro p F
+  have hne : h.next ≠ x := by omega
+  obtain ⟨dB, dN, dT, dPd, dPc, dPv⟩ := dupH_spec h x hx
+  obtain ⟨cA, cN, cT, cB, cR⟩ := copyH_spec (dupH h x) x
+  obtain ⟨oC, oK, oV, oO⟩ := outRes_ops (copyH (dupH h x) x).1 kind (ids.map (swapVar x p)) (copyH (dupH h x) x).2 vals
+  obtain ⟨rId, _, _, _, rO⟩ := outRes_spec (copyH (dupH h x) x).1 kind (ids.map (swapVar x p)) (copyH (dupH h x) x).2 vals
+  rw [cN, dN] at oC oK oV oO rId rO
+  have hFop : ∀ g, F.op g = (outRes (copyH (dupH h x) x).1 kind (ids.map (swapVar x p)) (copyH (dupH h x) x).2 vals).1.op g :=
+    fun _ => rfl
+  have hxo : x ≠ h.next + 1 + 1 + 1 := by omega
+  refine ⟨?_, ?_, ?_, ?_, ?_⟩
+  · have : F.t x = ((outRes (copyH (dupH h x) x).1 kind (ids.map (swapVar x p)) (copyH (dupH h x) x).2 vals).1.modT
+        (h.next + 1 + 1 + 1) ({ · with const := ((dupH h x).t x).const })).t (h.next + 1 + 1 + 1) := by
+      show ({ (mirror _ x _) with tens := _ } : Heap).t x = _
+      rw [rId, t_filter_ne _ _ _ hxo]
+      simp only [mirror, t_setT_self]
+    rw [this, t_modT_self]
+    exact oC
+  · rw [hFop]; exact oK
+  · rw [hFop]; exact oV
+  · intro g hg
+    rw [hFop, oO g hg]
+    show ((dupH h x).op g).vars = _
+    exact dupH_ops h x hx g
+  · obtain ⟨_, _, _, f4, f5⟩ := finalH_spec (dupH h x) x p kind ids vals (by rw [dN]; omega) (by rw [(dT x (Ne.symm hne)).1]; exact hvl)
+    obtain ⟨g1, _⟩ := f5 p hne (by rw [dN]; omega)
+    rw [g1, dPd]
+    apply val_congr
+    rw [f4 _ (by rw [dN]; exact hxbuf)]
+    simp only [Heap.buf, dB]
 
 end MG.C04R
